@@ -47,7 +47,7 @@ struct cwsd* mon_self;
 int mon_bottom_store_order, mon_top_load_order, mon_bottom_load_order, mon_top_cas_order;
 _Bool mon_top_cas_ok; int mon_top_cas_count, mon_bottom_store_count, mon_top_store_count; _Bool mon_bottom_store_weak, mon_first_bottom_store_done;
 int mon_first_bottom_store_order; int mon_last_top_load_order; uint64_t mon_last_top_load_val;
-uint64_t mon_top_cas_expected, mon_top_cas_desired, mon_cas_clock;
+uint64_t mon_top_cas_expected, mon_top_cas_desired, mon_cas_clock, mon_top_cas_seen;
 static void mon_store(void* addr, uint64_t v, int o) {
   if (addr == (void*)&mon_self->_bottom) { if (!mon_first_bottom_store_done) { mon_first_bottom_store_done = 1; mon_first_bottom_store_order = o; } mon_bottom_store_count++; mon_bottom_store_order = o; }
   if (addr == (void*)&mon_self->_top) mon_top_store_count++;
@@ -57,7 +57,8 @@ static void mon_load(void* addr, uint64_t v, int o) {
   if (addr == (void*)&mon_self->_bottom) mon_bottom_load_order = o;
 }
 static void mon_cas(void* addr, uint64_t e, uint64_t d, _Bool ok, int o) {
-  if (addr == (void*)&mon_self->_top) { mon_top_cas_count++; mon_top_cas_ok = ok; mon_top_cas_expected = e; mon_top_cas_desired = d; mon_top_cas_order = o; mon_cas_clock = xv_clock; }
+  if (addr == (void*)&mon_self->_top) { mon_top_cas_count++; mon_top_cas_ok = ok; mon_top_cas_expected = e; mon_top_cas_desired = d; mon_top_cas_order = o; mon_cas_clock = xv_clock;
+    mon_top_cas_seen = *(size_t*)addr;     /* the monitor runs before the cell is written: what a failing CAS hands back in `expected` */ }
 }
 
 #ifdef XV_INT
@@ -172,7 +173,11 @@ void h_pop_int(void) {
   }
   if (r && !mon_top_cas_count) { XV_OBL("cwsd.pop.last_item", res == get_val && get_idx == b - 1 && d._bottom == b - 1);
     XV_OBL("cwsd.pop.last_item", mon_last_top_load_val < b - 1 && mon_last_top_load_order == mo_seq_cst && mon_first_bottom_store_order == mo_seq_cst); XV_CANARY("pop_int.many"); }
-  if (!r && b != t0) { XV_OBL("cwsd.pop.last_item", res == res0 && (mon_top_cas_count == 0 || !mon_top_cas_ok)); XV_CANARY("pop_int.lost_race"); }
+  if (!r && b != t0) { XV_OBL("cwsd.pop.last_item", res == res0 && (mon_top_cas_count == 0 || !mon_top_cas_ok));
+    /* the owner lost its last item to a thief: it must put bottom back onto the top it observed (= the old bottom, thieves never pass it),
+       otherwise bottom < top and the next push is swallowed */
+    XV_OBL("cwsd.pop.restores_bottom", d._bottom == (mon_top_cas_count ? mon_top_cas_seen : mon_last_top_load_val) && d._bottom == b);
+    XV_CANARY("pop_int.lost_race"); }
   XV_OBL("cwsd.pop.last_item", mon_top_store_count == 0 && mon_top_cas_count <= 1);
 #endif
 }
